@@ -9,7 +9,7 @@ Import ListNotations.
    predefined entity or a decimal character reference, closed by ';') gives the text back. *)
 Theorem C12_escape_total :
   forall s, forallb markup_free (xml_escape s) = true /\ xml_unescape (xml_escape s) = Some s.
-Proof. intros s. split; [apply escape_markup_free|apply unescape_escape]. Qed.
+Proof. exact (fun s => conj (escape_markup_free s) (unescape_escape s)). Qed.
 Print Assumptions C12_escape_total.
 
 (* ... and for every text made of characters XML can carry it is character data (CharData and
